@@ -67,6 +67,18 @@ def replay_lexer(runner, ws, prop, h, vals, rec):
     d0 = int.from_bytes(bytes(vals[0]), "little") if vals and len(vals[0]) == 8 else 0
     stream_vals = vals[1:] if vals and len(vals[0]) == 8 else vals
     classes = [4] * (d0 if d0 <= 1024 else limit + 1) + decode_lexer_stream(stream_vals, limit)
+    # Completion to an observable run: a step that ends the stream early or loses track of the
+    # depth *inside* a comment shows no difference while everything that follows is comment too.
+    # The sequence is therefore continued with as many terminators as the reference needs to
+    # leave the comment, followed by one code token: the reference delivers that token, a lexer
+    # whose state went wrong does not (or delivers something else).
+    depth = 0
+    for c in classes:
+        if depth > 0:
+            depth += 1 if c == 4 else (-1 if c == 5 else 0)
+        elif c == 4:
+            depth = 1
+    classes = classes + [5] * depth + [0]
     src, spans = "", []
     for c in classes:
         lex = CLASS_TEXT[c]
